@@ -926,7 +926,15 @@ class C12:
         side = None
         if cfg.get("attrdict_side"):
             side = "z" + cfg["salt"]
-            zr = ex.world.mgr.ref(label=side)
+            if h64("sideenv", cfg["salt"], cfg["n_leaves"]) % 2:
+                # the same container obtained through Manager.newenv() (an environment proxy around the container and its
+                # reference); assignments go through the proxy
+                env = ex.world.mgr.newenv(side)
+                env.top0 = 0.5
+                zr = env._
+                ex.count("default_container_through_newenv")
+            else:
+                zr = ex.world.mgr.ref(label=side)
             zr["top"] = 1.5
             zr["elem"] = type(zr._owner)()
             zr["elem"]["up"] = zr._owner
